@@ -8,8 +8,8 @@ RB = ["__CPROVER_file_local_coap_net_c_handle_response", "__CPROVER_file_local_c
 T = {"con": 0, "non": 1, "ack": 2, "rst": 3}
 M = {"get": 1, "post": 2, "put": 3, "delete": 4, "fetch": 5}
 X = {"none": 0, "unknown-critical": 1, "if-none-match": 2, "content-format": 3, "proxy-uri": 4, "hop-limit-1": 5, "hop-limit-0": 6,
-     "hop-limit-n": 7, "repeat-cf": 8, "unknown-elective": 9, "no-response": 10, "proxy-scheme": 11}
-P = {"nopath": 0, "known": 1, "unknown": 2, "wellknown": 3}
+     "hop-limit-n": 7, "repeat-cf": 8, "unknown-elective": 9, "no-response": 10, "proxy-scheme": 11, "accept-block2m": 12}
+P = {"nopath": 0, "known": 1, "unknown": 2, "wellknown": 3, "one-segment-a/b": 4, "two-segments-a-b": 5}
 
 META = {
     "bounds": "one request datagram of an enumerated concrete layout (method x type x Uri-Path in {none, known, unknown} x one "
@@ -46,6 +46,13 @@ CASES = [
     ("get-unknown-unknownhandler", "con", "get", "unknown", "none", 2, 205, 2),
     ("put-unknown-unknownhandler", "non", "put", "unknown", "none", 2, 205, 2),
     ("get-as-ack", "ack", "get", "known", "none", 0, 0, 0),
+    # a legal request whose Block2 M bit is cleared in place (option scan restarts) is not a "bad option" request
+    ("get-nopath-accept-block2m", "con", "get", "nopath", "accept-block2m", 0, 404, 0),
+    ("get-known-accept-block2m", "non", "get", "known", "accept-block2m", 0, 205, 1),
+    # resource registered as "a/b": two segments find it, ONE segment "a/b" (slash inside the segment) does not
+    ("get-a-b-two-segments", "con", "get", "two-segments-a-b", "none", 8, 205, 1),
+    ("get-a/b-one-segment", "con", "get", "one-segment-a/b", "none", 8, 404, 0),
+    ("delete-a/b-one-segment", "non", "delete", "one-segment-a/b", "none", 8, 202, 0),
 ]
 
 
